@@ -64,24 +64,32 @@ package altbn128
 //@   opt noframe 1
 //@   requires [well-sized-input] len(m) == 64
 //@   requires [package-constants-initialised] hexRoot != nil && hexRoot.x != nil && hexRoot.y != nil && twistB != nil && twistB.x != nil && twistB.y != nil
+//@   modifies ghost.g2Accepted
 //@   ensures [error-or-point] err != nil || result0 != nil
+//@   ensures [decompressed-point-was-accepted-by-bn256] err == nil ==> ghost.g2Accepted
 
 //@ func DecompressToG1
 //@   property C04
 //@   opt safe index slice div
 //@   opt noframe 1
 //@   requires [well-sized-input] len(m) == 32
+//@   modifies ghost.g1Accepted
 //@   ensures [error-or-point] err != nil || result0 != nil
+//@   ensures [decompressed-point-was-accepted-by-bn256] err == nil ==> ghost.g1Accepted
 
 // bn256 marshalling lengths (external): G1 64 bytes, G2 128 bytes.
 //@ assume func github.com/ethereum/go-ethereum/crypto/bn256/cloudflare.G1.Marshal
 //@   ensures len(result) == 64
 //@ assume func github.com/ethereum/go-ethereum/crypto/bn256/cloudflare.G2.Marshal
 //@   ensures len(result) == 128
+//@ ghost g1Accepted bool
+//@ ghost g2Accepted bool
 //@ assume func github.com/ethereum/go-ethereum/crypto/bn256/cloudflare.G1.Unmarshal
-//@   ensures true
+//@   modifies ghost.g1Accepted
+//@   ensures ghost.g1Accepted == (result1 == nil)
 //@ assume func github.com/ethereum/go-ethereum/crypto/bn256/cloudflare.G2.Unmarshal
-//@   ensures true
+//@   modifies ghost.g2Accepted
+//@   ensures ghost.g2Accepted == (result1 == nil)
 
 //@ func G1Point.Compress
 //@   property C04
@@ -99,9 +107,13 @@ package altbn128
 //@   property C04
 //@   opt noframe 1
 //@   requires x != nil && y != nil
+//@   modifies ghost.g1Accepted
 //@   ensures err != nil || result0 != nil
+//@   ensures [a-point-is-returned-without-error-only-if-bn256-accepted-the-coordinates] err == nil ==> ghost.g1Accepted
 //@ func G2FromInts
 //@   property C04
 //@   opt noframe 1
 //@   requires x != nil && y != nil && x.x != nil && x.y != nil && y.x != nil && y.y != nil
+//@   modifies ghost.g2Accepted
 //@   ensures err != nil || result0 != nil
+//@   ensures [a-point-is-returned-without-error-only-if-bn256-accepted-the-coordinates] err == nil ==> ghost.g2Accepted
